@@ -208,6 +208,8 @@ def c16_burst(topo, origins, n, rnd, open_keep=2):
     """run n mixed connections from 8 threads; returns list of per-connection expectations"""
     closed_port = bb.free_port()
     kinds = ["ok", "ok", "ok-early", "deny", "norule", "refused", "badauth", "garbage", "abort", "nofeature", "ok-up"]
+    if getattr(topo, "fakes", None):
+        kinds.append("ok-up-early")        # the upstream proxy's reply comes in pieces and / or with payload glued behind it
     plan = [kinds[i % len(kinds)] for i in range(n)]
     rnd.shuffle(plan)
     out = []
@@ -219,8 +221,10 @@ def c16_burst(topo, origins, n, rnd, open_keep=2):
         proto = ["http", "socks5", "socks4"][i % 3]
         exp = {"kind": kind, "proto": proto, "target": "127.0.0.1:%d" % origin.port, "c_bytes": None, "s_bytes": None}
         try:
-            if kind in ("ok", "ok-early", "abort", "ok-up"):
-                up = "direct" if kind != "ok-up" else ["uphttp", "upsocks5", "upsocks4"][i % 3]
+            if kind in ("ok", "ok-early", "abort", "ok-up", "ok-up-early"):
+                up = "direct" if kind not in ("ok-up", "ok-up-early") else ["uphttp", "upsocks5", "upsocks4"][i % 3]
+                if kind == "ok-up-early":
+                    up = ["fakehttp", "fakesocks"][i % 2]
                 early = bb.payload("e%d" % i, 7) if kind == "ok-early" else b""
                 c, rep = topo.open(proto, up, T, early=early)
                 exp.update(listener="%s_%s" % (proto, up), connector=up)
@@ -229,13 +233,17 @@ def c16_burst(topo, origins, n, rnd, open_keep=2):
                     exp["sport"] = c.s.getsockname()[1]
                     c.close()
                     return exp
-                o = origin.accept(3.0)
+                o = (topo.fakes[up] if kind == "ok-up-early" else origin).accept(3.0)
+                glue = getattr(o, "glue", b"") if kind == "ok-up-early" else b""
                 up_bytes = bb.payload("c%d" % i, 100 + 37 * i)
                 down_bytes = bb.payload("s%d" % i, 50 + 11 * i)
                 c.send(up_bytes)
                 o.recv_some(timeout=2.0, want=len(early) + len(up_bytes))
                 o.send(down_bytes)
-                c.recv_some(timeout=2.0, want=len(down_bytes))
+                c.recv_some(timeout=2.0, want=len(glue) + len(down_bytes))
+                if kind == "ok-up-early" and bytes(c.rx) != glue + down_bytes:
+                    exp["unexpected"] = "client received %d bytes, expected %d (payload glued to the upstream's reply + later data)" % (len(c.rx), len(glue) + len(down_bytes))
+                down_bytes = glue + down_bytes
                 exp["sport"] = c.s.getsockname()[1]
                 if kind == "abort":
                     c.rst()
@@ -295,6 +303,35 @@ def c16_burst(topo, origins, n, rnd, open_keep=2):
     return out, keep
 
 
+def metrics_record(text, entries):
+    """Prometheus text of GET /metrics next to the sums of the access-log records"""
+    import re
+    m_in, m_out, gc = {}, {}, 0
+    for ln in text.splitlines():
+        m = re.match(r'io_client_bytes\{listener="([^"]*)"\} (\d+)', ln)
+        if m:
+            m_in[m.group(1)] = int(m.group(2))
+        m = re.match(r'io_server_bytes\{connector="([^"]*)"\} (\d+)', ln)
+        if m:
+            m_out[m.group(1)] = int(m.group(2))
+        m = re.match(r'context_gc_count (\d+)', ln)
+        if m:
+            gc = int(m.group(1))
+    rec_in, rec_out = {}, {}
+    for e in entries:
+        if e.get("listener"):
+            rec_in[e["listener"]] = rec_in.get(e["listener"], 0) + e["client_stat"]["read_bytes"]
+        if e.get("connector"):
+            rec_out[e["connector"]] = rec_out.get(e["connector"], 0) + e["server_stat"]["read_bytes"]
+    rec_in = {k: n for k, n in rec_in.items() if n or k in m_in}
+    rec_out = {k: n for k, n in rec_out.items() if n or k in m_out}
+    for k in rec_in:
+        m_in.setdefault(k, 0)
+    for k in rec_out:
+        m_out.setdefault(k, 0)
+    return {"ev": "metrics", "gc_count": gc, "m_in": m_in or {"-": 0}, "m_out": m_out or {"-": 0}, "rec_in": rec_in or {"-": 0}, "rec_out": rec_out or {"-": 0}}
+
+
 def run_c16(pid, tier, t0):
     v = vlib.Verdicts(pid)
     wd = vlib.workdir(pid.lower())
@@ -306,6 +343,7 @@ def run_c16(pid, tier, t0):
     nconn = 0
     ntr = 0
     samples = []
+    metrics_recs = []
     for hist, splice, n in configs:
         rnd = random.Random(seed * 100 + hist)
         tag = "h%d_%s" % (hist, "splice" if splice else "buffered")
@@ -313,7 +351,12 @@ def run_c16(pid, tier, t0):
         if os.path.exists(alog):
             os.remove(alog)
         origins = [bb.TcpOrigin() for _ in range(8)]
-        topo = scen.Topology(wd, "c16_" + tag, splice=splice, special=True, history=hist, access_log=alog).start()
+        fakes = {"fakehttp": bb.FakeUpstream("http"), "fakesocks": bb.FakeUpstream("socks5")}
+        for f in fakes.values():
+            f.policy = lambda k: {"glue": bb.payload("g%d" % k, 30 + 7 * (k % 9)) if k % 3 else b"", "split": k % 2 == 0}
+        topo = scen.Topology(wd, "c16_" + tag, splice=splice, special=True, history=hist, access_log=alog,
+                             fake={"fakehttp": ("http", fakes["fakehttp"].port), "fakesocks": ("socks", fakes["fakesocks"].port)}).start()
+        topo.fakes = fakes
         api_results = []     # (handler, event) in call order
         exps, keep = c16_burst(topo, origins, n, rnd)
         time.sleep(1.6)      # at least one gc tick: everything that ended is collected
@@ -329,12 +372,13 @@ def run_c16(pid, tier, t0):
         st, body = topo.p1.api(topo.api1, "/history")
         hist_entries = json.loads(body)
         api_results.append(("get_history", {"ev": "api_history", "ids": [e["id"] for e in hist_entries]}))
+        st, mbody = topo.p1.api(topo.api1, "/metrics")
         topo.p1.api(topo.api1, "/logrotate", method="POST", body="")
         time.sleep(0.5)
         alive = topo.p1.alive()
         panic = topo.p1.panicked()
         topo.stop()
-        for o in origins:
+        for o in origins + list(fakes.values()):
             o.close()
         if panic or not alive:
             v.report("life/proxy-died", str(panic)[:300], {"tag": tag})
@@ -383,12 +427,28 @@ def run_c16(pid, tier, t0):
                                      "s_bytes": ent["server_stat"]["read_bytes"], "error": ent["error"]},
                         "expected": {k: x.get(k) for k in ("target", "connector", "c_bytes", "s_bytes")}})
         obs.append({"ev": "log_lines", "ids": [e["id"] for e in entries]})
+        mrec = metrics_record(mbody.decode("utf-8", "replace"), entries)
+        mrec["lines"] = len(entries)
+        mrec["config"] = tag
+        metrics_recs.append(mrec)
         lines, _, _ = gather(topo, [], hist, extra_events=extra)
         lines += obs
         if validate(v, pid, wd, tag, lines, obs):
             ntr += 1
         samples.append({"history_size": hist, "connections": n, "api": [r for _, r in api_results][:2], "record": obs[0] if obs else None})
+    # growth beyond C16: Prometheus counters as a refinement of the records (MetricsObs.tla); reported, never a violation
+    mp = os.path.join(wd, "metrics.ndjson")
+    vlib.write_ndjson(mp, [{k: v for k, v in r.items() if k not in ("ev", "config")} for r in metrics_recs])
+    mg = vlib.run_tlc("MetricsObs", "MetricsObs.cfg", workers=1, timeout=120, env_extra={"METRICS": mp})
+    metrics_dev = []
+    for c in (mg.cases if mg.ok else []):
+        r = c["rec"]
+        metrics_dev.append({"gc_count_vs_lines": [r["gc_count"], r["lines"]],
+                            "io_client_bytes_minus_records": {k: r["m_in"].get(k, 0) - n for k, n in r["rec_in"].items() if r["m_in"].get(k, 0) != n},
+                            "io_server_bytes_minus_records": {k: r["m_out"].get(k, 0) - n for k, n in r["rec_out"].items() if r["m_out"].get(k, 0) != n}})
     ev = vlib.evidence(pid, tier, "model_checking", {
+        "metrics_refinement": {"scrapes": len(metrics_recs), "checked_by": "MetricsObs.tla" if mg.ok else "not evaluated", "deviations": metrics_dev,
+                               "note": "outside C16: bytes a peer sends right behind its handshake are in the record's counters but not in io_*_bytes"},
         "states": sum(m.distinct for m in mcs), "transitions": sum(m.generated for m in mcs), "traces_validated_against_impl": ntr,
         "samples": samples[:2], "evaluations": nconn, "distinct_nontrivial": nconn,
         "rule": "Life.tla (3 connections x all outcomes x history size 0/1/2); bursts of mixed connections (ok, ok with early data, ok through an "
